@@ -105,8 +105,9 @@ class Run:
         for v in new:
             fn = os.path.join(REPLAY_DIR, f"{self.prop}_" + "".join(
                 c if c.isalnum() or c in "._-" else "_" for c in v["key"])[:150] + ".json")
-            with open(fn, "w") as f:
-                json.dump({"property": self.prop, **v}, f, indent=1)
+            if not os.environ.get("SA_NO_EVIDENCE"):
+                with open(fn, "w") as f:
+                    json.dump({"property": self.prop, **v}, f, indent=1)
             print(f"VIOLATION property={self.prop} replay={fn}")
             print(f"  rule {v['rule']}: {self.rule_text.get(v['rule'], '')}")
             print(f"  at {v['loc']} {v['construct']} [{v['aspect']}]: {v['obligation']}")
@@ -131,6 +132,8 @@ class Run:
         return code
 
     def _write_evidence(self, n_new: int, kn: List[Dict[str, Any]]) -> None:
+        if os.environ.get("SA_NO_EVIDENCE"):
+            return  # used by the self-test / seed runner on scratch copies only
         os.makedirs(EVIDENCE_DIR, exist_ok=True)
         holds = [i for i in self.instances if i["verdict"] == "holds"]
         distinct = {(i["rule"], i["construct"], i["obligation"]) for i in self.instances}
